@@ -702,6 +702,18 @@ def replay_alter_field(obligation=None, model=None, meta=None):
     return {'confirmed': False, 'tried': n}
 
 
+def replay_event_runs(obligation=None, model=None, meta=None):
+    """native: event schedules on kundur_full with recorded callbacks and effect checks (contracts/bounded_events.py)"""
+    from contracts import bounded_events
+    n, bad = bounded_events.run()
+    if bad:
+        return {'confirmed': True, 'inputs': bad, 'observed': bad.get('observed'), 'native_cmd': 'contracts/bounded_events.py'}
+    return {'confirmed': False, 'tried': n}
+
+
+replay_event_runs.real_system = True
+
+
 def add_obligations(pack, tier, pid='C06'):
     pack.assume('System.store_switch_times is verified in two mechanical slices cut at `for i, j in zip(out, names)`: the head (collection, sort, '
                 'selection) guarantees what the tail (merge loop) requires of `out`, `names`: ascending, paired; not decided for the head: that no '
@@ -709,8 +721,8 @@ def add_obligations(pack, tier, pid='C06'):
                 'np.argsort returns in-range indices that order the array ascending; np.where(mask)[0] returns the increasing in-range indices at '
                 'which the mask holds; np.append(a, b) is a followed by b (assumed numpy contracts)')
     items = [(store_switch_times_head(pid), None, replay_store_switch_times), (store_switch_times_tail(pid, True), None, replay_store_switch_times), (store_switch_times_tail(pid, False), WIT_F28, replay_store_switch_times),
-             (fn_tds.tds_init(pid),), (is_time(pid),), (model_switch_action(pid),), (system_switch_action(pid),),
-             (toggle_u_switch(pid),), (fault_apply(pid),), (fault_clear(pid),), (alter_field(pid), None, replay_alter_field)]
+             (fn_tds.tds_init(pid),), (is_time(pid),), (model_switch_action(pid), None, replay_event_runs), (system_switch_action(pid), None, replay_event_runs),
+             (toggle_u_switch(pid), None, replay_event_runs), (fault_apply(pid),), (fault_clear(pid),), (alter_field(pid), None, replay_alter_field)]
     run_contracts(pack, items)
 
 replay_alter_field.real_system = True       # drives the real program on stock inputs: a crash inside repository code is a confirmed failure
